@@ -5,10 +5,13 @@ package main
 import (
 	"bytes"
 	crand "crypto/rand"
+	"encoding/base64"
+	"encoding/hex"
 	"encoding/json"
 	"errors"
 	"fmt"
 	"math/rand"
+	"strings"
 
 	"github.com/ipfs/go-cid"
 
@@ -254,9 +257,34 @@ func init() {
 		}
 		aud, _ := w.principal("A")
 		good := map[string][]byte{"good1": keyOfClass("len64", rng)[:32], "good2": keyOfClass("len64", rng)[:32]}
+		// a key of the wrong size is refused whatever it spells: the good key written out as text (hex in either case, base64
+		// variants), one letter repeated, digits - not a second way to present the 32 bytes
+		spelt := 0
 		keyFor := func(c string) []byte {
 			if k, ok := good[c]; ok {
 				return k
+			}
+			if c == "len64" {
+				spelt++
+				hx := hex.EncodeToString(good["good1"])
+				switch spelt % 6 {
+				case 1:
+					return []byte(hx)
+				case 2:
+					return []byte(strings.ToUpper(hx))
+				case 3:
+					return bytes.Repeat([]byte{'a'}, 64)
+				case 4:
+					return bytes.Repeat([]byte{'0'}, 64)
+				case 5:
+					return append([]byte(base64.StdEncoding.EncodeToString(good["good1"])), bytes.Repeat([]byte{'='}, 20)...)
+				}
+			}
+			if c == "len33" && spelt%2 == 1 {
+				return append(append([]byte{}, good["good1"]...), 0)
+			}
+			if c == "len31" && spelt%2 == 1 {
+				return append([]byte{}, good["good1"][:31]...)
 			}
 			return keyOfClass(c, rng)
 		}
